@@ -6,13 +6,18 @@ Model: `H4.Atom` (`hdf/src/atom.c`: hash tables, free list, 4-entry cache with t
 Every theorem is about ALL histories `ops : List Op` run from the static initial state `State.init`; the
 hypotheses are the executable predicates of `H4.Atom`:
 
-* `adm State.init ops`  – every `HAinit_group` has `hash_size ≤ 2^28`, no `HAregister_atom` is made once a group's
-  28-bit counter is exhausted (fewer than `2^28` registrations per group life time), `HAshutdown` is not called;
-* `noReinit s ops`      – no `HAinit_group` in `ops` re-creates the table of a group that was fully destroyed.
+* `adm State.init ops`  – every `HAinit_group` has `hash_size ≤ 2^28`, and no `HAregister_atom` is made once a group's
+  28-bit counter `atom_next_id[grp]` is exhausted (fewer than `2^28` registrations per group in the process).
+  Nothing else: `HAshutdown`, `HAdestroy_group` + `HAinit_group` cycles are all admissible.
 
 "The registrations that are live after `ops`" is the finite map of the specification machine `H4.Atom.SState`
-(`Live` below): entered by a successful `HAregister_atom`, deleted by a successful `HAremove_atom` of that id or by the
-last `HAdestroy_group` of its group. -/
+(`Live` below): entered by a successful `HAregister_atom`, deleted by a successful `HAremove_atom` of that id, by the
+last `HAdestroy_group` of its group or by `HAshutdown`.
+
+History: before the repairs `fix: an atom id is not issued again after its group is destroyed and re-created` and
+`fix: HAshutdown empties the atom cache ...` the id counter restarted at 0 with every re-created group and
+`HAshutdown` left the cache populated; the stale-id theorems then needed the extra hypotheses "no re-initialisation" and
+"no HAshutdown" and their unrestricted forms were refuted by `decide` witnesses. Those hypotheses are gone. -/
 namespace H4.Props.C13
 open H4.Atom H4.Gen.Macros H4.Gen.Atom
 
@@ -164,16 +169,25 @@ theorem counter_wrap_aliases (g : Nat) (hg : g < MAXGROUP) (a b c : Nat) :
   have hb : badGroup (g : Int) = false := by rw [badGroup_nat]; simp; omega
   -- state after init
   have hlen0 : State.init.groups.length = MAXGROUP := by simp [State.init]
+  have hnl0 : State.init.nextIds.length = MAXGROUP := by decide
+  have hnx0 : nextId State.init g = 0 := by
+    have : ∀ k, k < 9 → nextId State.init k = 0 := by decide
+    exact this g (by omega)
   have hget0 : getG State.init g = none := by
     simp [getG, State.init, List.getD_eq_getElem?_getD, List.getElem?_replicate, hg]
-  let gp1 : Group := { count := 1, hashSize := 1, atoms := 0, nextid := 0, atomList := [[]] }
+  let gp1 : Group := { count := 1, hashSize := 1, atoms := 0, atomList := [[]] }
   have hs1 : runS State.init [Op.init (g : Int) 1] = setG State.init g gp1 := by
     simp only [runS, step, initGroup, hb, Int.toNat_natCast, hget0]
     rfl
   have hlen1 : (setG State.init g gp1).groups.length = MAXGROUP := by simp [setG, hlen0]
+  have hnl1 : (setG State.init g gp1).nextIds.length = MAXGROUP := hnl0
+  have hnx1 : nextId (setG State.init g gp1) g = 0 := hnx0
   have hget1 : getG (setG State.init g gp1) g = some gp1 := by
     rw [getG_setG _ _ _ _ (by omega)]; simp
-  obtain ⟨hr1, hc1, hlen2, hget2⟩ := register_one _ g hg gp1 hlen1 hget1 (by decide) a
+  have hU : UNSIGNED_BITS = 32 := rfl
+  obtain ⟨hr1, hc1, hlen2, hnl2, hnx2, hget2⟩ := register_one _ g hg gp1 hlen1 hnl1 hget1 (by decide) a
+  rw [hnx1] at hr1 hnx2 hget2
+  have hnx2' : nextId (step (setG State.init g gp1) (.register (g : Int) a)).1 g = 1 := by rw [hnx2, hU]
   refine ⟨by rw [hs1]; exact hr1, ?_⟩
   -- the 2^28 - 1 further registrations
   have hpre : runS State.init pre =
@@ -183,14 +197,12 @@ theorem counter_wrap_aliases (g : Nat) (hg : g < MAXGROUP) (a b c : Nat) :
     congr 1
     show runS (runS State.init [Op.init (g : Int) 1]) [.register (g : Int) a] = _
     rw [hs1]; rfl
-  have hU : UNSIGNED_BITS = 32 := rfl
-  have hnx1 : (regGroup g gp1 a).nextid = 1 := by simp only [regGroup, hU, gp1]
-  obtain ⟨gp', h1, h2, h3, h4, h5, h6, h7⟩ := register_many (2 ^ 28 - 1) c g hg _ _ hlen2 hget2 (by simp [regGroup, gp1]) rfl
-    (by simp [regGroup, gp1]) (by rw [hnx1]; decide)
-  have hnext : gp'.nextid = 0 + 2 ^ 28 := by rw [h5, hnx1]
-  rw [← hpre] at h1 h6 h7
-  obtain ⟨hr3, hc3, hlen3, hget3⟩ := register_one _ g hg gp' h7 h1 h2 b
-  have hid : MAKE_ATOM g gp'.nextid = MAKE_ATOM g 0 := by rw [hnext]; exact MAKE_ATOM_wrap g 0
+  obtain ⟨gp', h1, h2, h3, h4, h5, h6, h7, h8⟩ := register_many (2 ^ 28 - 1) c g hg _ _ hlen2 hnl2 hget2 (by simp [regGroup, gp1]) rfl
+    (by simp [regGroup, gp1]) (by rw [hnx2']; decide)
+  rw [← hpre] at h1 h5 h6 h7 h8
+  have hnext : nextId (runS State.init pre) g = 0 + 2 ^ 28 := by rw [h5, hnx2']
+  obtain ⟨hr3, hc3, hlen3, _, _, hget3⟩ := register_one _ g hg gp' h7 h8 h1 h2 b
+  have hid : MAKE_ATOM g (nextId (runS State.init pre) g) = MAKE_ATOM g 0 := by rw [hnext]; exact MAKE_ATOM_wrap g 0
   refine ⟨by rw [hr3, hid], ?_⟩
   -- the lookup: the cache is still the initial (empty) one, the chain head is the newest node
   have hfin : runS State.init (pre ++ [.register (g : Int) b]) = (step (runS State.init pre) (.register (g : Int) b)).1 := by
@@ -206,18 +218,20 @@ theorem counter_wrap_aliases (g : Nat) (hg : g < MAXGROUP) (a b c : Nat) :
   have hgrp : ATOM_TO_GROUP (MAKE_ATOM g 0) = g := group_MAKE_ATOM g 0 hg16
   have hbg : badGroup (atomGroup (MAKE_ATOM g 0)) = false := by
     rw [badGroup_atomGroup, hgrp]; simp; omega
+  rw [hnext] at hget3
   generalize (step (runS State.init pre) (.register (g : Int) b)).1 = s3 at hcache hget3
   have hinit : State.init.cache = ⟨emptySlot, emptySlot, emptySlot, emptySlot⟩ := by decide
   rw [hinit] at hcache
   simp only [step, atomObject, hcache, emptySlot, hne, if_false, Bool.false_eq_true]
   simp only [atomObjectSlow, findAtom, hbg, if_false, Bool.false_eq_true, atomGroup_toNat, hgrp, hget3]
-  have e2 : ((regGroup g gp' b).count == 0) = false := by simp [regGroup, h2]
-  have h3' : (regGroup g gp' b).hashSize = 1 := h3
+  have e2 : ((regGroup g (0 + 2 ^ 28) gp' b).count == 0) = false := by simp [regGroup, h2]
+  have h3' : (regGroup g (0 + 2 ^ 28) gp' b).hashSize = 1 := h3
   simp only [e2, if_false, Bool.false_eq_true, h3', ATOM_TO_LOC_one]
   simp only [regGroup, h3, Nat.mod_one]
   have hl : gp'.atomList.length = 1 := h4
   rw [getD_set _ _ _ _ _ (by omega)]
-  simp only [if_true, List.find?_cons, hid, beq_self_eq_true]
+  have hid' : MAKE_ATOM g (0 + 2 ^ 28) = MAKE_ATOM g 0 := MAKE_ATOM_wrap g 0
+  simp only [if_true, List.find?_cons, hid', beq_self_eq_true]
 
 /-- `cache_coherent`: after every admissible history each cache slot is either unused (`-1`, `NULL`) or holds a live id
     together with that id's own object (preserved by the `SWAP_CACHE` promotions, by `HAremove_atom`'s single-slot
@@ -282,27 +296,25 @@ theorem removed_rejected_now (pre : List Op) (id : Nat) (h : adm State.init pre 
       obtain ⟨hm, hid⟩ := find?_id_some _ _ _ hf
       exact absurd hid (this e hm)
 
-/-- `stale_rejected_partial`: an id that was issued (`issued`) and is not live (`isLive = false`: it was removed, or
-    its group was destroyed) is rejected by `HAatom_object` and `HAremove_atom` after ANY continuation that does not
-    re-initialise a destroyed group.
-    The full statement – without `noReinit` – is `DestroyThenInitClean` below and is FALSE of atom.c. -/
-theorem stale_rejected_partial (pre post : List Op) (id : Nat)
-    (hadm : adm State.init (pre ++ post) = true) (hnr : noReinit (after pre) post = true)
+/-- `stale_rejected`: an id that was issued (`issued`) and is not live (`isLive = false`: it was removed, its group was
+    destroyed, or the library was shut down) is rejected by `HAatom_object` and `HAremove_atom` after ANY admissible
+    continuation – including `HAdestroy_group` + `HAinit_group` of its group and `HAshutdown` + re-creation. -/
+theorem stale_rejected (pre post : List Op) (id : Nat)
+    (hadm : adm State.init (pre ++ post) = true)
     (hiss : issued (after pre) id = true) (hdead : isLive (after pre) id = false) :
     resultAfter (pre ++ post) (.object id) = .obj NULL ∧ resultAfter (pre ++ post) (.remove id) = .obj NULL := by
   rw [adm_append, Bool.and_eq_true] at hadm
   have hR := reach pre hadm.1
-  have hst := sstale_run hR post hadm.2 hnr id (sstale_of_model hR id hiss hdead)
+  have hst := sstale_run hR post hadm.2 id (sstale_of_model hR id hiss hdead)
   have hRf := (run_refines hR post hadm.2).1
   have : after (pre ++ post) = runS (after pre) post := by simp [after, runS_append]
   simp only [resultAfter, this]
   exact object_of_none hRf id hst.1
 
-/-- `removed_rejected`: after a successful `HAremove_atom id` the id stays rejected for the rest of the group's life time -/
+/-- `removed_rejected`: after a successful `HAremove_atom id` the id stays rejected for ever (any admissible continuation) -/
 theorem removed_rejected (pre post : List Op) (id o : Nat)
     (hadm : adm State.init (pre ++ .remove id :: post) = true)
-    (hrem : resultAfter pre (.remove id) = .obj o) (ho : o ≠ NULL)
-    (hnr : noReinit (after (pre ++ [.remove id])) post = true) :
+    (hrem : resultAfter pre (.remove id) = .obj o) (ho : o ≠ NULL) :
     resultAfter (pre ++ .remove id :: post) (.object id) = .obj NULL ∧
     resultAfter (pre ++ .remove id :: post) (.remove id) = .obj NULL := by
   have hadm' : adm State.init ((pre ++ [.remove id]) ++ post) = true := by simpa using hadm
@@ -334,25 +346,15 @@ theorem removed_rejected (pre post : List Op) (id o : Nat)
       have hlt : i < 2 ^ 28 := by omega
       rw [← hid', Nat.mod_eq_of_lt hlt] at this
       omega
-    refine stale_rejected_partial (pre ++ [.remove id]) post id hadm' hnr ?_ ?_
+    refine stale_rejected (pre ++ [.remove id]) post id hadm' ?_ ?_
     · -- issued
       have hstate : after (pre ++ [.remove id]) = (step (after pre) (.remove id)).1 := by simp [after, runS_append, runS]
-      have hrel := hst.1.grp _ hg
+      have h0 := hst.1.nx _ hg
+      simp only [sstep, hl, upd_same] at h0
       unfold issued
       rw [hstate]
-      simp only [hg, decide_true, Bool.true_and]
-      cases hget : getG (step (after pre) (.remove id)).1 (ATOM_TO_GROUP id) with
-      | none =>
-        rw [hget] at hrel
-        have h0 : (sstep (mapAfter pre) (.remove id) (ATOM_TO_GROUP id)).nextid = 0 := hrel.2
-        simp only [sstep, hl, upd_same] at h0
-        omega
-      | some gp =>
-        rw [hget] at hrel
-        have h0 : gp.nextid = (sstep (mapAfter pre) (.remove id) (ATOM_TO_GROUP id)).nextid := hrel.2.1
-        simp only [sstep, hl, upd_same] at h0
-        have hA : ATOM_BITS = 28 := rfl
-        simp only [decide_eq_true_eq, hA, h0]; exact hctr
+      have hA : ATOM_BITS = 28 := rfl
+      simp only [hg, decide_true, Bool.true_and, decide_eq_true_eq, hA, h0]; exact hctr
     · -- not live any more
       have hnow := (removed_rejected_now pre id hadm0).1
       unfold isLive
@@ -389,9 +391,8 @@ theorem removed_rejected (pre post : List Op) (id o : Nat)
     nested inits afterwards -/
 example : adm State.init ([.init 4 2, .register 4 11, .register 4 12, .register 4 13, .object 1073741826] ++
       .remove 1073741826 :: [.init 4 8, .register 4 14, .destroy 4, .object 1073741824]) = true ∧
-    resultAfter [.init 4 2, .register 4 11, .register 4 12, .register 4 13, .object 1073741826] (.remove 1073741826) = .obj 13 ∧
-    noReinit (after ([.init 4 2, .register 4 11, .register 4 12, .register 4 13, .object 1073741826] ++ [.remove 1073741826]))
-      [.init 4 8, .register 4 14, .destroy 4, .object 1073741824] = true := by decide
+    resultAfter [.init 4 2, .register 4 11, .register 4 12, .register 4 13, .object 1073741826] (.remove 1073741826) = .obj 13 := by
+  decide
 
 /-- `never_issued_rejected`: an id that no `HAregister_atom` has produced (invalid group bits, a group that was never
     initialised, or a counter at or beyond the group's `nextid`) is rejected. -/
@@ -414,16 +415,10 @@ theorem never_issued_rejected (ops : List Op) (id : Nat) (h : adm State.init ops
     have hid' : id = MAKE_ATOM (ATOM_TO_GROUP id) i := hid
     have hlt : i < 2 ^ 28 := by omega
     rw [← hid', Nat.mod_eq_of_lt hlt] at hctr
-    have hrel := hR.grp _ hg
     unfold issued at hni
-    simp only [hg, decide_true, Bool.true_and] at hni
-    cases hget : getG (after ops) (ATOM_TO_GROUP id) with
-    | none => rw [hget] at hrel; have := hrel.1; omega
-    | some gp =>
-      rw [hget] at hrel hni
-      have hA : ATOM_BITS = 28 := rfl
-      simp only [decide_eq_false_iff_not, hA] at hni
-      rw [hrel.2.1] at hni; omega
+    have hA : ATOM_BITS = 28 := rfl
+    simp only [hg, decide_true, Bool.true_and, decide_eq_false_iff_not, hA] at hni
+    rw [hR.nx _ hg] at hni; omega
 
 /-- never issued: counter beyond `nextid`, a valid but uninitialised group, group bits 9..15, `FAIL` itself -/
 example : let ops := [Op.init 4 2, .register 4 11, .register 4 12]
@@ -479,7 +474,35 @@ theorem wrong_group_rejected (ops : List Op) (id : Nat) (h : adm State.init ops 
     simp only [hcond, if_true] at h1 h2
     exact ⟨h1, h2⟩
 
-/-! ## re-initialisation: the full statement is false -/
+/-! ## re-initialisation and shutdown: stale ids stay rejected -/
+
+/-- `HAdestroy_group` does not touch the id counters -/
+theorem destroy_keeps_nextIds (s : State) (g : Int) : (destroyGroup s g).1.nextIds = s.nextIds := by
+  unfold destroyGroup
+  by_cases hb : badGroup g = true
+  · simp only [hb, if_true]
+  · simp only [hb, if_false, Bool.false_eq_true]
+    cases getG s g.toNat with
+    | none => rfl
+    | some gp =>
+      simp only []
+      by_cases hc : (gp.count == 0) = true
+      · simp only [hc, if_true]
+      · simp only [hc, if_false, Bool.false_eq_true]
+        by_cases h1 : (gp.count - 1 == 0) = true
+        · simp only [h1, if_true]; rfl
+        · simp only [h1, if_false, Bool.false_eq_true]; rfl
+
+/-- no id of a group whose init count is 0 is in a table -/
+theorem isLive_of_count_zero (s : State) (id : Nat) (h : groupCount s (ATOM_TO_GROUP id) = 0) : isLive s id = false := by
+  unfold isLive tableFind
+  rw [atomGroup_toNat]
+  unfold groupCount at h
+  split
+  · rfl
+  · cases hget : getG s (ATOM_TO_GROUP id) with
+    | none => rfl
+    | some gp => rw [hget] at h; simp only [] at h; simp [h]
 
 /-- the full-strength `destroy_then_init_clean`: after the last `HAdestroy_group g` followed by `HAinit_group g`, no id
     that group `g` issued before resolves, whatever happens afterwards. -/
@@ -490,47 +513,65 @@ def DestroyThenInitClean : Prop :=
     groupCount (after (pre ++ [.destroy g])) g.toNat = 0 →
     resultAfter (pre ++ .destroy g :: .init g hs :: post) (.object id) = .obj NULL
 
-/-- FALSE of atom.c: `HAinit_group` restarts `nextid` at 0 when the init count is back to 0, so the first id of the old
-    life time is issued again; the stale handle then resolves to (and can remove) the NEW object.
-    Witness (replayed on the C library by /root/work/atom/repro/f10.c and hit by engine `atom`, key
-    `atom-id-reissued:after-reinit`): init 6 8; register 6 100 → 1610612736; destroy 6; init 6 8; register 6 200 →
-    1610612736 again; object 1610612736 → 200. -/
-theorem destroy_then_init_clean_false : ¬ DestroyThenInitClean := by
-  intro h
-  have := h [.init 6 8, .register 6 100] [.register 6 200] 6 8 1610612736 (by decide) (by decide) (by decide) (by decide)
-  revert this
-  decide
+/-- `destroy_then_init_clean` holds: the id counter `atom_next_id[g]` is not part of the group record, so a re-created
+    group continues where the destroyed one stopped and an old id is never handed out for a new object.
+    (Before the repair of atom.c – `nextid` restarted at 0 – the negation of this statement was proved at a concrete
+    history and reproduced on the library; the engine oracle `atom-id-reissued` keeps watching for it.) -/
+theorem destroy_then_init_clean : DestroyThenInitClean := by
+  intro pre post g hs id hadm hiss hgrp hcnt
+  subst hgrp
+  rw [atomGroup_toNat] at hcnt
+  have e : pre ++ .destroy (atomGroup id) :: .init (atomGroup id) hs :: post =
+      (pre ++ [.destroy (atomGroup id)]) ++ (.init (atomGroup id) hs :: post) := by simp
+  rw [e] at hadm ⊢
+  refine (stale_rejected _ _ id hadm ?_ (isLive_of_count_zero _ id hcnt)).1
+  have hstate : after (pre ++ [.destroy (atomGroup id)]) = (destroyGroup (after pre) (atomGroup id)).1 := by
+    simp [after, runS_append, runS, step]
+  unfold issued nextId at hiss ⊢
+  rw [hstate, destroy_keeps_nextIds]; exact hiss
 
-/-- the same witness, spelled out on results: the two registrations get the same id and the old handle removes the new object -/
+/-- the history that used to refute the statement (init; register → id; destroy; init; register → the SAME id; lookup
+    of the stale id → the new object), on the repaired code: the second registration gets the next id, the stale id is
+    rejected by lookup and removal, the new handle works -/
 example : runR State.init [.init 6 8, .register 6 100, .remove 1610612736, .object 1610612736, .destroy 6, .init 6 8,
-      .register 6 200, .object 1610612736, .remove 1610612736, .object 1610612736]
-    = [.status 0, .atom 1610612736, .obj 100, .obj 0, .status 0, .status 0, .atom 1610612736, .obj 200, .obj 200, .obj 0] := by
+      .register 6 200, .object 1610612736, .remove 1610612736, .object 1610612737]
+    = [.status 0, .atom 1610612736, .obj 100, .obj 0, .status 0, .status 0, .atom 1610612737, .obj 0, .obj 0, .obj 200] := by
   decide
 
-/-- the hypotheses of `stale_rejected_partial` are satisfiable on a non-trivial history (remove, then nested init/destroy
-    that never takes the count to 0, more registrations, a destroy of ANOTHER group and its re-creation is excluded) -/
-example : adm State.init ([.init 6 2, .init 2 1, .register 6 100, .register 6 101, .object 1610612736, .remove 1610612736] ++
-      [.init 6 4, .destroy 6, .register 6 102, .register 2 5, .object 1610612737]) = true ∧
-    noReinit (after [.init 6 2, .init 2 1, .register 6 100, .register 6 101, .object 1610612736, .remove 1610612736])
-      [.init 6 4, .destroy 6, .register 6 102, .register 2 5, .object 1610612737] = true ∧
-    issued (after [.init 6 2, .init 2 1, .register 6 100, .register 6 101, .object 1610612736, .remove 1610612736]) 1610612736 = true ∧
-    isLive (after [.init 6 2, .init 2 1, .register 6 100, .register 6 101, .object 1610612736, .remove 1610612736]) 1610612736 = false := by
+/-- the hypotheses of `DestroyThenInitClean` / `stale_rejected` are satisfiable on a history that destroys the group
+    completely, re-creates it with another table size and registers again -/
+example : adm State.init ([.init 6 2, .register 6 100, .register 6 101, .object 1610612737] ++ .destroy 6 :: .init 6 4 ::
+      [.register 6 102, .object 1610612737, .shutdown, .init 6 1, .register 6 103]) = true ∧
+    issued (after [.init 6 2, .register 6 100, .register 6 101, .object 1610612737]) 1610612737 = true ∧
+    groupCount (after ([.init 6 2, .register 6 100, .register 6 101, .object 1610612737] ++ [.destroy 6])) 6 = 0 := by
   decide
 
-/-! ## `HAshutdown` (excluded by `adm`): it does not invalidate the cache -/
+/-! ## `HAshutdown` -/
 
 /-- after `HAshutdown` every group is gone … -/
 theorem shutdown_clears_groups (s : State) (g : Nat) : getG (shutdown s) g = none := by
   simp only [getG, shutdown, List.getD_eq_getElem?_getD, List.getElem?_replicate]
   split <;> rfl
 
-/-- … but the 4-entry cache is left populated: a cached id still resolves after `HAshutdown`, and after
-    `HAinit_group` + `HAregister_atom` the re-issued id resolves to the OLD object out of the stale slot
-    (C reproduction: /root/work/atom/repro/shut.c; engine keys `atom-lookup:after-shutdown`, `atom-cache:after-shutdown`). -/
-theorem shutdown_leaves_stale_cache :
-    runR State.init [.init 6 8, .register 6 100, .object 1610612736, .shutdown, .object 1610612736, .init 6 8,
-      .register 6 200, .object 1610612736]
-    = [.status 0, .atom 1610612736, .obj 100, .status 0, .obj 100, .status 0, .atom 1610612736, .obj 100] := by
+/-- … and every cache slot is empty (the repair `fix: HAshutdown empties the atom cache`) -/
+theorem shutdown_clears_cache (s : State) : (shutdown s).cache.toList = [emptySlot, emptySlot, emptySlot, emptySlot] := rfl
+
+/-- `shutdown_rejects_everything`: directly after `HAshutdown` no id whatsoever resolves or can be removed – in particular
+    not one that sat in the cache. -/
+theorem shutdown_rejects_everything (ops : List Op) (id : Nat) (h : adm State.init ops = true) :
+    resultAfter (ops ++ [.shutdown]) (.object id) = .obj NULL ∧ resultAfter (ops ++ [.shutdown]) (.remove id) = .obj NULL := by
+  have hadm : adm State.init (ops ++ [.shutdown]) = true := by
+    rw [adm_append, h]; rfl
+  refine (wrong_group_rejected _ id hadm).2.1 (Or.inr ?_)
+  have hstate : after (ops ++ [.shutdown]) = shutdown (after ops) := by simp [after, runS_append, runS, step]
+  unfold groupCount
+  rw [hstate, shutdown_clears_groups]
+
+/-- the history that used to show the stale cache (lookup caches the id; shutdown; lookup still answered; init; register
+    re-issued the id and the lookup returned the OLD object), on the repaired code -/
+example : runR State.init [.init 6 8, .register 6 100, .object 1610612736, .shutdown, .object 1610612736, .init 6 8,
+      .register 6 200, .object 1610612736, .object 1610612737]
+    = [.status 0, .atom 1610612736, .obj 100, .status 0, .obj 0, .status 0, .atom 1610612737, .obj 0, .obj 200] := by
   decide
 
 end H4.Props.C13
